@@ -192,3 +192,27 @@ def install(ex):
     ex.intrinsics.update(ERRS)
     ex.ctx.products = {}
     ex.ctx.product_terms = {}
+
+
+# ---------------------------------------------------------------- encoding/binary (integer encoding: bytes are fresh
+# variables defined by v = sum b_t 256^t, instead of div/mod chains)
+def _put_uint64(big):
+    def f(ex, args, ins):
+        _, buf, v = args
+        if ex.ctx.intmode != "int" or not is_term(v):
+            raise Unsupported("PutUint64 stub is for the integer encoding")
+        ln = buf.len
+        if is_term(ln) or ln < 8:
+            ex.panic_if(True if not is_term(ln) else simp_bool(ln < 8), "PutUint64: short buffer")
+        bs = [z3.Int(ex.ctx.fresh_name("pb")) for _ in range(8)]
+        ex.ctx.add_fact(z3.And([z3.And(b >= 0, b < 256) for b in bs] + [v == sum(b * 256 ** t for t, b in enumerate(bs))]))
+        for t in range(8):
+            pos = (7 - t) if big else t
+            ex.store_to(Ptr(buf.ptr.obj, buf.ptr.off + pos, buf.ptr.sym), bs[t], "uint8")
+        return ()
+    return f
+
+
+def install_binary_int(ex):
+    ex.intrinsics["(encoding/binary.bigEndian).PutUint64"] = _put_uint64(True)
+    ex.intrinsics["(encoding/binary.littleEndian).PutUint64"] = _put_uint64(False)
